@@ -183,18 +183,22 @@ class RepeatOnce(Expression):
         pairs.extend(children)
         children.clear()
 
-        while True:
-            state.checkpoint()
-            state.parse_trivia(children)
-            matched = self.expression.parse(state, children)
-            if not matched:
-                state.restore()
-                break
+        # `e+` is `e ~ e*`: trivia after the first item belongs to the sequence.
+        state.parse_trivia(pairs)
 
+        state.checkpoint()
+        matched = self.expression.parse(state, children)
+
+        while matched:
             state.ok()
             pairs.extend(children)
             children.clear()
+            # Trivia between iterations is given back if there's no next iteration.
+            state.checkpoint()
+            state.parse_trivia(children)
+            matched = self.expression.parse(state, children)
 
+        state.restore()
         return True
 
     def generate(self, gen: Builder, matched_var: str, pairs_var: str) -> None:
